@@ -16,7 +16,7 @@ use std::sync::Arc;
 use serde_json::json;
 use tantivy::collector::Count;
 use tantivy::query::{
-    intersect_scorers, AllQuery, BooleanQuery, EnableScoring, Exclude, Explanation, Occur, PhrasePrefixQuery, PhraseQuery, Query, RangeQuery,
+    intersect_scorers, AllQuery, BooleanQuery, EnableScoring, Exclude, Explanation, Occur, PhrasePrefixQuery, PhraseQuery, Query, RangeQuery, RegexPhraseQuery,
     RequiredOptionalScorer, Scorer, SumCombiner, TermQuery, Weight,
 };
 use tantivy::schema::{IndexRecordOption, Schema, FAST, INDEXED, TEXT};
@@ -432,7 +432,9 @@ fn gen_shape(rng: &mut Rng, depth: usize, next_id: &mut usize, max_len: usize, u
 fn progs_term(p: &[Call]) -> String { cf::list(p, |c| c.coq()) }
 fn obs_term(o: &[Obs]) -> String { cf::list(o, |x| x.coq()) }
 
-struct Ctx<'a> { out: &'a mut CaseOut, rng: Rng, coq_budget: usize, score_tol: f32, script: Vec<Call> }
+/// `expected_scores`: the score each document must have by the meaning of the query (sum of the standalone scores of
+/// the must clauses), when the caller knows it.  `sweep`: how many members get a `fresh scorer; seek(member)` check.
+struct Ctx<'a> { out: &'a mut CaseOut, rng: Rng, coq_budget: usize, score_tol: f32, script: Vec<Call>, expected_scores: Option<HashMap<u32, f32>>, sweep: usize }
 
 /// Drives `progs` programs on fresh scorers from `make`; `spec_list` is the Coq term of the expected list,
 /// `truth` the same list computed on the Rust side; `model` (if any) the Coq function `prog -> list obs`.
@@ -478,6 +480,45 @@ fn exercise2(ctx: &mut Ctx, what: &str, make: &dyn Fn() -> Box<dyn Scorer>, trut
         ctx.out.coq_case("spec", format!("nl_eqb {} {}", spec_list, cf::ns(&walk)), json!({"what": what, "check": "sequential pass = set semantics", "case": desc}), nontrivial);
     }
     let ref_scores = if scored { Some(&scores) } else { None };
+    // the score of the sequential pass itself, against the meaning of the query (when known)
+    if let (true, true, Some(exp)) = (scored, seq_ok, &ctx.expected_scores) {
+        let bad = walk.iter().find(|d| !matches!((scores.get(d), exp.get(d)), (Some(a), Some(b)) if score_same(*b, *a, 1e-5)));
+        ctx.out.count("expected_score_checks", walk.len() as u64);
+        if let Some(d) = bad {
+            ctx.out.spec_checked(false, json!({"what": what, "why": format!("score at doc {} by plain advance is {:?} but the clauses score {:?} on their own", d, scores.get(d), exp.get(d)), "case": desc}));
+        } else { ctx.out.spec_checked(true, json!(null)); }
+    }
+    // seek(t) on a fresh scorer lands on t for every member t (a sample of them), with the score of the sequential
+    // pass, and the next advance gives the next member
+    if seq_ok && !truth.is_empty() {
+        let n = truth.len();
+        let picks: Vec<usize> = if n <= ctx.sweep { (0..n).collect() } else { (0..ctx.sweep).map(|_| ctx.rng.below(n as u64) as usize).collect() };
+        let tol = ctx.score_tol;
+        let mut first_bad: Option<String> = None;
+        for i in picks {
+            let t = truth[i];
+            let r = guarded(|| {
+                let mut sc = make();
+                if sc.doc() > t { return None; }
+                let got = sc.seek(t);
+                if got != t || sc.doc() != t { return Some(format!("fresh scorer, seek({}) lands on {} (doc() = {})", t, got, sc.doc())); }
+                if let Some(rs) = ref_scores {
+                    let sco = sc.score();
+                    if !matches!(rs.get(&t), Some(r) if score_same(*r, sco, tol)) { return Some(format!("fresh scorer, seek({}): score {} but the sequential pass gives {:?}", t, sco, rs.get(&t))); }
+                }
+                let nxt = sc.advance();
+                let e = truth.get(i + 1).copied().unwrap_or(TERMINATED);
+                if nxt != e { return Some(format!("fresh scorer, seek({}); advance gives {} instead of {}", t, nxt, e)); }
+                None
+            });
+            ctx.out.count("fresh_seek_checks", 1);
+            match r { Ok(None) => {} Ok(Some(m)) => { first_bad.get_or_insert(m); } Err(e) => { first_bad.get_or_insert(format!("panic in fresh seek({}): {}", t, e)); } }
+        }
+        match first_bad {
+            None => ctx.out.spec_checked(true, json!(null)),
+            Some(m) => ctx.out.spec_checked(false, json!({"what": what, "why": m, "case": desc})),
+        }
+    }
     for p in 0..progs {
         let len = match ctx.rng.below(4) { 0 => ctx.rng.range(1, 4) as usize, _ => ctx.rng.range(4, 22) as usize };
         let mut rng = ctx.rng.fork();
@@ -538,7 +579,7 @@ fn main() {
     tvh::quiet_panics();
     let thorough = args.thorough();
     let mut out = CaseOut::new(&args.out, HEADER, 60);
-    let mut ctx = Ctx { out: &mut out, rng: Rng::new(args.seed), coq_budget: if thorough { 4000 } else { 750 }, score_tol: 0.0, script: vec![] };
+    let mut ctx = Ctx { out: &mut out, rng: Rng::new(args.seed), coq_budget: if thorough { 4000 } else { 750 }, score_tol: 0.0, script: vec![], expected_scores: None, sweep: 40 };
     let scale: u64 = if thorough { 8 } else { 1 };
 
     let (_i1, s_small) = small_index(10);
@@ -809,6 +850,22 @@ fn main() {
                 let mut ins = vec!["big"]; if rng.chance(1, 3) { ins.push("bad"); } ins.push(suffix);
                 for (k, t) in ins.into_iter().enumerate() { toks.insert(pos + k, t); }
             }
+            // documents with 0..4 occurrences of the phrase "big wolf" (different phrase counts = different scores),
+            // many of them carrying the rare term "zz" (a cheaper clause that leads an intersection)
+            if rng.chance(1, 6) {
+                for _ in 0..rng.below(5) { let pos = rng.below(toks.len() as u64 + 1) as usize; toks.insert(pos, "wolf"); toks.insert(pos, "big"); }
+                if rng.chance(2, 3) { let pos = rng.below(toks.len() as u64 + 1) as usize; toks.insert(pos, "zz"); }
+            } else if rng.chance(1, 30) { toks.push("zz"); }
+            // "wombat" is a rare expansion (< 100 docs) of the regex wo.* next to the frequent wolf / wonder / word / wo:
+            // documents holding both, where the phrase `wo.* tag` goes through the frequent one only, through the rare
+            // one only, or through none
+            if rng.chance(1, 90) {
+                match rng.below(4) {
+                    0 | 1 => { toks.insert(0, "wombat"); toks.insert(1, "x"); toks.push(*rng.pick(&["wolf", "word", "wo"])); toks.push("tag"); }
+                    2 => { toks.push("wombat"); toks.push("tag"); }
+                    _ => { toks.push("wombat"); toks.push("y"); }
+                }
+            }
             w.add_document(doc!(tf => toks.join(" "))).unwrap();
             texts.push(toks);
         }
@@ -823,17 +880,37 @@ fn main() {
         };
         let ph_match = |toks: &Vec<&str>, ph: &[&str]| -> bool { toks.len() >= ph.len() && toks.windows(ph.len()).any(|w| w == ph) };
         let has = |toks: &Vec<&str>, t: &str| toks.iter().any(|x| *x == t);
-        let run = |name: &str, q: Box<dyn Query>, truth: Vec<u32>, ctx: &mut Ctx, single: bool| {
+        // `musts`: when the query is a conjunction of these clauses, its score is the sum of their standalone scores
+        let run2 = |name: &str, q: Box<dyn Query>, truth: Vec<u32>, ctx: &mut Ctx, single: bool, musts: Option<Vec<Box<dyn Query>>>| {
             for scoring in [false, true] {
                 let w = weight_of(q.as_ref(), &s, scoring);
                 let small = truth.len() <= 350;
                 let empty: Vec<u32> = vec![];
                 ctx.score_tol = if single { 0.0 } else { 1e-5 };
+                ctx.sweep = 600;
+                ctx.expected_scores = match (&musts, scoring) {
+                    (Some(cl), true) => {
+                        let mut sum: HashMap<u32, f32> = HashMap::new();
+                        for (k, c) in cl.iter().enumerate() {
+                            let cw = weight_of(c.as_ref(), &s, true);
+                            let mut sc = cw.scorer(r, 1.0).unwrap();
+                            let mut this: HashMap<u32, f32> = HashMap::new();
+                            let mut d = sc.doc();
+                            while d != TERMINATED { this.insert(d, sc.score()); d = sc.advance(); }
+                            if k == 0 { sum = this; } else { sum = sum.into_iter().filter_map(|(d, a)| this.get(&d).map(|b| (d, a + *b))).collect(); }
+                        }
+                        Some(sum)
+                    }
+                    _ => None,
+                };
                 exercise(ctx, name, &|| w.scorer(r, 1.0).unwrap(), &truth, &cf::ns(if small { &truth } else { &empty }), None, None,
                          scoring, (12 * scale) as usize, if small { 1 } else { 0 }, json!({"query": name, "hits": truth.len(), "scoring": scoring}));
                 ctx.score_tol = 0.0;
+                ctx.sweep = 40;
+                ctx.expected_scores = None;
             }
         };
+        let run = |name: &str, q: Box<dyn Query>, truth: Vec<u32>, ctx: &mut Ctx, single: bool| run2(name, q, truth, ctx, single, None);
         let pps: Vec<Vec<&str>> = vec![vec!["big", "wo"], vec!["bad", "wo"], vec!["big", "bad", "wo"], vec!["x", "big", "wo"], vec!["big", "big"]];
         for ph in &pps {
             let q = PhrasePrefixQuery::new(ph.iter().map(|t| term(t)).collect());
@@ -856,6 +933,41 @@ fn main() {
             ("bool +x +(pp(big wo) bigger)", Box::new(BooleanQuery::new(vec![(Occur::Must, tq("x")), (Occur::Must, Box::new(BooleanQuery::new(vec![(Occur::Should, ppq(&["big", "wo"])), (Occur::Should, tq("bigger"))])))])), Box::new(|t| has(t, "x") && (pp_match(t, &["big", "wo"]) || has(t, "bigger")))),
         ];
         for (name, q, pred) in combos {
+            let truth: Vec<u32> = (0..ndocs).filter(|d| pred(&texts[*d as usize])).collect();
+            run(name, q, truth, &mut ctx, false);
+        }
+        // conjunctions whose score is known clause by clause: a phrase / phrase-prefix with varying phrase counts as the
+        // leading clause and as a non-leading clause (then the enclosing intersection moves it with seek_danger)
+        let phq = |ph: &[&str]| -> Box<dyn Query> { Box::new(PhraseQuery::new(ph.iter().map(|t| term(t)).collect())) };
+        let conj: Vec<(&str, Vec<Box<dyn Query>>, Box<dyn Fn(&Vec<&str>) -> bool + '_>)> = vec![
+            ("conj +zz +ph(big wolf)", vec![tq("zz"), phq(&["big", "wolf"])], Box::new(|t| has(t, "zz") && ph_match(t, &["big", "wolf"]))),
+            ("conj +ph(big wolf) +wolf", vec![phq(&["big", "wolf"]), tq("wolf")], Box::new(|t| ph_match(t, &["big", "wolf"]))),
+            ("conj +zz +ph(big wolf) +y", vec![tq("zz"), phq(&["big", "wolf"]), tq("y")], Box::new(|t| has(t, "zz") && has(t, "y") && ph_match(t, &["big", "wolf"]))),
+            ("conj +zz +pp(big wo)", vec![tq("zz"), ppq(&["big", "wo"])], Box::new(|t| has(t, "zz") && pp_match(t, &["big", "wo"]))),
+            ("conj +zz +ph(big wolf) +ph(wolf big)", vec![tq("zz"), phq(&["big", "wolf"]), phq(&["wolf", "big"])], Box::new(|t| has(t, "zz") && ph_match(t, &["big", "wolf"]) && ph_match(t, &["wolf", "big"]))),
+        ];
+        for (name, clauses, pred) in conj {
+            let truth: Vec<u32> = (0..ndocs).filter(|d| pred(&texts[*d as usize])).collect();
+            let q = BooleanQuery::new(clauses.iter().map(|c| (Occur::Must, c.box_clone())).collect());
+            run2(name, Box::new(q), truth, &mut ctx, false, Some(clauses));
+        }
+        // regex phrases: every regex term is a SimpleUnion of a union of the rare expansions and a union of the frequent
+        // ones; the phrase scorer moves it with seek only
+        let rx_match = |toks: &Vec<&str>, ph: &[&str]| -> bool {
+            toks.len() >= ph.len() && toks.windows(ph.len()).any(|w| w.iter().zip(ph).all(|(t, p)| if let Some(pre) = p.strip_suffix(".*") { t.starts_with(pre) } else { t == p }))
+        };
+        let rxq = |ph: &[&str]| -> Box<dyn Query> { Box::new(RegexPhraseQuery::new(tf, ph.iter().map(|t| t.to_string()).collect())) };
+        let rxs: Vec<Vec<&str>> = vec![vec!["wo.*", "tag"], vec!["big", "wo.*"], vec!["wo.*", "wo.*"], vec!["x", "wo.*", "tag"], vec!["wom.*", "tag"]];
+        for ph in &rxs {
+            let truth: Vec<u32> = (0..ndocs).filter(|d| rx_match(&texts[*d as usize], ph)).collect();
+            run(&format!("regexphrase {}", ph.join("_")), rxq(ph), truth, &mut ctx, true);
+        }
+        let rcombos: Vec<(&str, Box<dyn Query>, Box<dyn Fn(&Vec<&str>) -> bool + '_>)> = vec![
+            ("bool +rx(wo.* tag) +x", Box::new(BooleanQuery::new(vec![(Occur::Must, rxq(&["wo.*", "tag"])), (Occur::Must, tq("x"))])), Box::new(|t| rx_match(t, &["wo.*", "tag"]) && has(t, "x"))),
+            ("bool +wombat +rx(wo.* tag)", Box::new(BooleanQuery::new(vec![(Occur::Must, tq("wombat")), (Occur::Must, rxq(&["wo.*", "tag"]))])), Box::new(|t| has(t, "wombat") && rx_match(t, &["wo.*", "tag"]))),
+            ("bool +y -rx(wo.* tag)", Box::new(BooleanQuery::new(vec![(Occur::Must, tq("y")), (Occur::MustNot, rxq(&["wo.*", "tag"]))])), Box::new(|t| has(t, "y") && !rx_match(t, &["wo.*", "tag"]))),
+        ];
+        for (name, q, pred) in rcombos {
             let truth: Vec<u32> = (0..ndocs).filter(|d| pred(&texts[*d as usize])).collect();
             run(name, q, truth, &mut ctx, false);
         }
